@@ -551,8 +551,27 @@ func (r *rewriter) guardUnlock(e ast.Expr) *ast.CallExpr {
 		return nil
 	}
 	sel, ok := ce.Fun.(*ast.SelectorExpr)
-	if !ok || (sel.Sel.Name != "Unlock" && sel.Sel.Name != "RUnlock") || !r.guardLock(sel.X) {
+	if !ok || (sel.Sel.Name != "Unlock" && sel.Sel.Name != "RUnlock") {
 		return nil
+	}
+	rt := r.typeOf(sel.X)
+	isMu := isNamed(rt, "sync", "Mutex") || isNamed(rt, "sync", "RWMutex")
+	if !isMu {
+		if selInfo, found := r.info.Selections[sel]; found {
+			if fn, isFn := selInfo.Obj().(*types.Func); isFn && fn.Pkg() != nil && fn.Pkg().Path() == "sync" {
+				isMu = true
+			}
+		}
+	}
+	if !isMu {
+		return nil
+	}
+	if !r.guardLock(sel.X) {
+		// every release goes through the runtime: a task that is killed while
+		// it waits in Lock unwinds through its deferred Unlock without
+		// holding the mutex, which must not reach sync.Mutex
+		r.stats["unlock_rewrites"]++
+		return r.call("Unlock", &ast.SelectorExpr{X: sel.X, Sel: ast.NewIdent(sel.Sel.Name)})
 	}
 	r.stats["guard_unlocks"]++
 	return r.call("UnlockG", &ast.SelectorExpr{X: sel.X, Sel: ast.NewIdent(sel.Sel.Name)}, &ast.UnaryExpr{Op: token.AND, X: sel.X})
